@@ -49,6 +49,17 @@ def w_tdmd(ctx, rng, idx):
     with probe.oracle():
         x = tt.TT(X.reshape(dims + [m] + [1] * (nd + 1)))
         y = tt.TT(Y.reshape(dims + [m] + [1] * (nd + 1)))
+        if rng.random() < 0.3:
+            # the same snapshots with inflated TT ranks: untruncated sums / differences formed in TT format (x = xa + xb, mean-subtracted
+            # data ...): every bond, the last one included, is over-parameterised in a way no single core shows
+            Xa = rng.standard_normal(X.shape)
+            x = tt.TT(Xa.reshape(dims + [m] + [1] * (nd + 1))) + tt.TT((X - Xa).reshape(dims + [m] + [1] * (nd + 1)))
+            if rng.random() < 0.5:
+                Ya = rng.standard_normal(Y.shape)
+                y = tt.TT(Ya.reshape(dims + [m] + [1] * (nd + 1))) + tt.TT((Y - Ya).reshape(dims + [m] + [1] * (nd + 1)))
+            label += '_inflated_ranks'
+            if thr == 0.0:
+                thr = 1e-10
     ctx.describe({'op': 'tdmd_exact/standard', 'dims': dims, 'snapshots': m, 'data': label, 'threshold': thr, 'ranks': x.ranks})
     call('tdmd.tdmd_exact', td.tdmd_exact, x, y, prop=P, refusals=(np.linalg.LinAlgError,), threshold=thr)
     call('tdmd.tdmd_standard', td.tdmd_standard, x, y, prop=P, refusals=(np.linalg.LinAlgError,), threshold=thr)
